@@ -28,7 +28,7 @@ pub enum Src { W(u8), R(u8), S(u8), Y(u8), L { v: usize, i: usize, d: u8 } }
 pub enum Sink { Drop, Dc(u8), Forget, Push(usize), Ins(usize, usize), Lazy(usize, usize), Swap(u8), SwapRaw(u8), Info }
 #[derive(Clone, Copy, Debug)]
 pub enum HK { Pop, Remove, SwapRemove }
-#[derive(Clone, Copy, Debug)]
+#[derive(Clone, Copy, Debug, PartialEq, Eq)]
 pub enum EndTok { F, B }
 #[derive(Clone, Copy, Debug)]
 pub enum FinTok { Drop, Forget }
@@ -36,6 +36,10 @@ pub type Rng = (Bound<usize>, Bound<usize>);
 
 thread_local! {
     pub static OUT: RefCell<Vec<String>> = RefCell::new(Vec::new());
+    /// in this case a run of `k` plain drops from one end of an erased drain followed by one more item from the same end
+    /// is taken with `nth(k)` / `nth_back(k)` - what `skip`, `step_by` and `nth` do. By the iterator contract that is
+    /// k + 1 `next` calls whose first k results are dropped, so the script, the model and the oracles are unchanged.
+    pub static NTH_MODE: std::cell::Cell<bool> = std::cell::Cell::new(false);
 }
 pub fn out_string(s: String) {
     OUT.with(|o| o.borrow_mut().push(s));
@@ -406,18 +410,20 @@ pub fn tag_of<F: Family>(t: TypeId) -> String {
 /// object-safe view of a mutable value handle (for swaps across the `dyn DynVec` boundary)
 pub trait ErasedMut {
     fn em_ptr(&mut self) -> *mut u8;
+    fn em_cptr(&self) -> *const u8;
     fn em_size(&self) -> usize;
     fn em_typeid(&self) -> TypeId;
 }
 impl<V: AnyValueMut> ErasedMut for V {
     fn em_ptr(&mut self) -> *mut u8 { self.as_bytes_mut_ptr() }
+    fn em_cptr(&self) -> *const u8 { self.as_bytes_ptr() }
     fn em_size(&self) -> usize { AnyValueTypeless::size(self) }
     fn em_typeid(&self) -> TypeId { self.value_typeid() }
 }
 pub struct FwdMut<'a>(pub &'a mut dyn ErasedMut);
 impl<'a> AnyValueSizeless for FwdMut<'a> {
     type Type = Unknown;
-    fn as_bytes_ptr(&self) -> *const u8 { panic!("harness: FwdMut is only used mutably") }
+    fn as_bytes_ptr(&self) -> *const u8 { self.0.em_cptr() }
 }
 impl<'a> any_vec::any_value::AnyValueSizelessMut for FwdMut<'a> {
     fn as_bytes_mut_ptr(&mut self) -> *mut u8 { self.0.em_ptr() }
@@ -595,6 +601,22 @@ macro_rules! impl_kind {
                     for e in self.v.iter().rev() { if !addr_ok(e.as_bytes().as_ptr(), n - 1 - k) { bad(43, k); } k += 1; if k > n { break; } }
                     if k != n { bad(43, k); }
                     if tv.iter().count() != n || tv.iter().zip(tv.as_slice().iter()).any(|(x, y)| x as *const T != y as *const T) { bad(43, n); }
+                    // the adaptors built on `nth` / `nth_back` (`skip`, `step_by`, `rev().skip`, `last`) on the borrowing iterator
+                    for k in 0..=(n + 1).min(6) {
+                        let want_f = if k < n { Some(k) } else { None };
+                        let want_b = if k < n { Some(n - 1 - k) } else { None };
+                        let got_f = self.v.iter().nth(k).map(|e| e.as_bytes().as_ptr() as usize);
+                        let got_b = self.v.iter().nth_back(k).map(|e| e.as_bytes().as_ptr() as usize);
+                        if sz != 0 {
+                            if got_f != want_f.map(|i| base + i * sz) || got_b != want_b.map(|i| base + i * sz) { bad(43, k); }
+                        } else if got_f.is_some() != want_f.is_some() || got_b.is_some() != want_b.is_some() { bad(43, k); }
+                        let mut sk = self.v.iter().skip(k);
+                        if sk.len() != n.saturating_sub(k) { bad(43, k); }
+                        if let Some(e) = sk.next() { if !addr_ok(e.as_bytes().as_ptr(), k) { bad(43, k); } }
+                    }
+                    if self.v.iter().step_by(2).count() != n.div_ceil(2) { bad(43, n); }
+                    let last = self.v.iter().last().map(|e| e.as_bytes().as_ptr() as usize);
+                    if last.is_some() != (n > 0) || (n > 0 && sz != 0 && last != Some(base + (n - 1) * sz)) { bad(43, n); }
                     // unchecked downcasts of the whole vector land on the same storage
                     let tu = unsafe { self.v.downcast_ref_unchecked::<T>() };
                     if tu.as_ptr() != tv.as_ptr() || tu.len() != tv.len() { bad(44, 0); }
@@ -790,18 +812,58 @@ macro_rules! impl_kind {
             }
             fn drain(&mut self, r: Rng, typed: bool, eats: &[(EndTok, Sink)], fin: FinTok, env: &Env<F>) {
                 if !typed {
+                    let use_nth = NTH_MODE.with(|m| m.get());
+                    let base = self.v.as_bytes().as_ptr();
+                    let start = match r.0 { Bound::Included(i) => i, Bound::Excluded(i) => i.wrapping_add(1), Bound::Unbounded => 0 };
                     let mut it = self.v.drain(r);
                     out!("{}", it.len());
-                    for (end, sink) in eats {
+                    // positions of the next item from the front / one past the next item from the back
+                    let (mut front, mut back) = (start, start + it.len());
+                    let mut i = 0;
+                    while i < eats.len() {
+                        let (end, sink) = &eats[i];
+                        let mut k = 0;
+                        if use_nth {
+                            while i + k + 1 < eats.len() && matches!(eats[i + k].1, Sink::Drop) && eats[i + k].0 == *end
+                                && eats[i + k + 1].0 == *end { k += 1; }
+                        }
+                        if k > 0 {
+                            // the identities of the items `nth` is going to skip (and destroy), read before it does
+                            let rem = it.len();
+                            for j in 0..k {
+                                if j < rem {
+                                    let pos = match end { EndTok::F => front + j, EndTok::B => back - 1 - j };
+                                    let id = reg::noscope(|| show_id(F::SIZE, unsafe { std::slice::from_raw_parts(base.add(pos * F::SIZE), F::SIZE) }));
+                                    out!("{}:{}", id, rem - j - 1);
+                                } else { out!("N:0"); }
+                            }
+                            let took = k.min(rem);
+                            match end { EndTok::F => front += took, EndTok::B => back -= took }
+                            let e = match end { EndTok::F => it.nth(k), EndTok::B => it.nth_back(k) };
+                            let sink = &eats[i + k].1;
+                            match e {
+                                None => out!("N:{}", it.len()),
+                                Some(e) => {
+                                    match end { EndTok::F => front += 1, EndTok::B => back -= 1 }
+                                    let id = reg::noscope(|| show_id(F::SIZE, e.as_bytes()));
+                                    let tok = sink_value!(F, e, sink, env, $clone);
+                                    finish_item!(tok, id, it.len());
+                                }
+                            }
+                            i += k + 1;
+                            continue;
+                        }
                         let e = match end { EndTok::F => it.next(), EndTok::B => it.next_back() };
                         match e {
                             None => out!("N:{}", it.len()),
                             Some(e) => {
+                                match end { EndTok::F => front += 1, EndTok::B => back -= 1 }
                                 let id = reg::noscope(|| show_id(F::SIZE, e.as_bytes()));
                                 let tok = sink_value!(F, e, sink, env, $clone);
                                 finish_item!(tok, id, it.len());
                             }
                         }
+                        i += 1;
                     }
                     match fin { FinTok::Drop => drop(it), FinTok::Forget => std::mem::forget(it) }
                 } else {
